@@ -3,6 +3,7 @@ package frame
 import (
 	"fmt"
 	"go/token"
+	"strings"
 
 	"golang.org/x/tools/go/ssa"
 
@@ -169,4 +170,82 @@ func WriteBeforeRead(prog *load.Program, fn *ssa.Function, g *ssa.Global) Result
 	res.OK = true
 	res.Detail = fmt.Sprintf("in each of the %d loop(s) touching %s the first access of an iteration is a store", found, g.Name())
 	return res
+}
+
+
+// GlobalWrites lists the package-level variables of /repo that the reachable functions
+// (package initialisers excluded) may write: direct stores, and updates of a map or
+// in-place growth of a slice loaded from the variable.
+func GlobalWrites(prog *load.Program, reach map[*ssa.Function]bool) map[string][]string {
+	out := map[string][]string{}
+	add := func(g *ssa.Global, fn *ssa.Function, pos string) {
+		if g.Pkg == nil || !inRepoPkg(g.Pkg) {
+			return
+		}
+		k := fnKeyGlobal(g)
+		out[k] = append(out[k], fnKey(fn)+" at "+pos)
+	}
+	for fn := range reach {
+		if !inRepo(fn) || len(fn.Blocks) == 0 {
+			continue
+		}
+		if fn.Name() == "init" || strings.HasPrefix(fn.Name(), "init#") || (fn.Parent() != nil && strings.HasPrefix(fn.Parent().Name(), "init")) || fn.Synthetic != "" {
+			continue
+		}
+		for _, b := range fn.Blocks {
+			for _, in := range b.Instrs {
+				switch x := in.(type) {
+				case *ssa.Store:
+					if g := rootGlobal(x.Addr); g != nil {
+						add(g, fn, prog.Pos(x.Pos()))
+					}
+				case *ssa.MapUpdate:
+					if g := rootGlobal(x.Map); g != nil {
+						add(g, fn, prog.Pos(x.Pos()))
+					}
+				case *ssa.Call:
+					if bi, ok := x.Call.Value.(*ssa.Builtin); ok && bi.Name() == "delete" {
+						if g := rootGlobal(x.Call.Args[0]); g != nil {
+							add(g, fn, prog.Pos(x.Pos()))
+						}
+					}
+				}
+			}
+		}
+	}
+	return out
+}
+
+func inRepoPkg(p *ssa.Package) bool {
+	return len(p.Pkg.Path()) >= len(load.Module) && p.Pkg.Path()[:len(load.Module)] == load.Module
+}
+
+func fnKeyGlobal(g *ssa.Global) string {
+	rel := g.Pkg.Pkg.Path()
+	if len(rel) > len(load.Module) {
+		rel = rel[len(load.Module)+1:]
+	}
+	return rel + "." + g.Name()
+}
+
+// rootGlobal follows field/index addresses and loads back to a package variable.
+func rootGlobal(v ssa.Value) *ssa.Global {
+	for i := 0; i < 8; i++ {
+		switch x := v.(type) {
+		case *ssa.Global:
+			return x
+		case *ssa.FieldAddr:
+			v = x.X
+		case *ssa.IndexAddr:
+			v = x.X
+		case *ssa.UnOp:
+			if x.Op != token.MUL {
+				return nil
+			}
+			v = x.X
+		default:
+			return nil
+		}
+	}
+	return nil
 }
